@@ -16,7 +16,9 @@ SHRINK_KEYS = ('ops',)
 ASSUMPTIONS = [
     'GLib dispatch model of vlib/simloop.py (one iteration = all ready sources of the most urgent ready priority)',
     'non-blocking socket model of vlib/simnet.py (partial writes, EAGAIN when the pipe is full)',
-    'keepalive/idle timers off (C14 owns timers); no TLS',
+    'keepalive/idle timers off (C14 owns timers)',
+    'in histories with TLS (scripted pass-through socket, cfg.tls) the link takes at least 64 octets at once: the endpoint '
+    'handshakes on a blocking socket, which cannot be simulated while cleartext is still unwritten (DESIGN.md section 3)',
 ]
 
 
